@@ -5,6 +5,7 @@ import (
 	"encoding/json"
 	"errors"
 	"fmt"
+	"runtime"
 	"sync"
 	"time"
 
@@ -33,6 +34,15 @@ type fakeQuery struct {
 	client.QueryClient // every other method: nil interface, never called on this path
 	mu                 sync.Mutex
 	deployments        map[uint64]*dtypes.QueryDeploymentResponse
+	holds              map[uint64]*hold // deployments whose query is kept in flight until released
+}
+
+// hold keeps the manager's one chain query of a deployment in flight: submissions made meanwhile are queued by the
+// manager and validated together (one batch) when the harness lets the answer through.
+type hold struct {
+	entered chan struct{} // closed when the manager's query has arrived (so m.data == nil and the fetch is in flight)
+	release chan struct{} // closed by the harness
+	once    sync.Once
 }
 
 func (q *fakeQuery) ActiveLeasesForProvider(sdk.AccAddress) ([]mtypes.QueryLeaseResponse, error) {
@@ -40,6 +50,13 @@ func (q *fakeQuery) ActiveLeasesForProvider(sdk.AccAddress) ([]mtypes.QueryLease
 }
 
 func (q *fakeQuery) Deployment(_ context.Context, in *dtypes.QueryDeploymentRequest, _ ...grpc.CallOption) (*dtypes.QueryDeploymentResponse, error) {
+	q.mu.Lock()
+	h := q.holds[in.ID.DSeq]
+	q.mu.Unlock()
+	if h != nil {
+		h.once.Do(func() { close(h.entered) })
+		<-h.release
+	}
 	q.mu.Lock()
 	defer q.mu.Unlock()
 	if r, ok := q.deployments[in.ID.DSeq]; ok {
@@ -65,9 +82,13 @@ func (okHostnames) ReserveHostnames([]string, dtypes.DeploymentID) <-chan error 
 func (okHostnames) ReleaseHostnames([]string)                                      {}
 func (okHostnames) CanReserveHostnames([]string, dtypes.DeploymentID) <-chan error { return okch() }
 
+type gateMarker struct{ n uint64 } // the harness' own bus event: everything published before it has been delivered
+
 type gateEnv struct {
 	svc    pmanifest.Service
 	bus    pubsub.Bus
+	sub    pubsub.Subscriber // the harness listens on the real bus like the cluster service does
+	marks  uint64
 	q      *fakeQuery
 	cancel context.CancelFunc
 	owner  string
@@ -78,16 +99,21 @@ type gateEnv struct {
 func newGateEnv() (*gateEnv, error) {
 	owner := sdk.AccAddress([]byte("verif-mmatch-owner--")).String()
 	provAddr := sdk.AccAddress([]byte("verif-mmatch-provdr-"))
-	q := &fakeQuery{deployments: map[uint64]*dtypes.QueryDeploymentResponse{}}
+	q := &fakeQuery{deployments: map[uint64]*dtypes.QueryDeploymentResponse{}, holds: map[uint64]*hold{}}
 	ctx, cancel := context.WithCancel(context.Background())
 	bus := pubsub.NewBus()
 	p := &ptypes.Provider{Owner: provAddr.String()}
+	sub, err := bus.Subscribe()
+	if err != nil {
+		cancel()
+		return nil, err
+	}
 	svc, err := pmanifest.NewService(ctx, session.New(log.NewNopLogger(), fakeClient{q}, p), bus, okHostnames{}, pmanifest.ServiceConfig{})
 	if err != nil {
 		cancel()
 		return nil, err
 	}
-	return &gateEnv{svc: svc, bus: bus, q: q, cancel: cancel, owner: owner, prov: provAddr.String(), next: 1}, nil
+	return &gateEnv{svc: svc, bus: bus, sub: sub, q: q, cancel: cancel, owner: owner, prov: provAddr.String(), next: 1}, nil
 }
 
 func (e *gateEnv) close() error {
@@ -97,8 +123,44 @@ func (e *gateEnv) close() error {
 	case <-time.After(30 * time.Second):
 		return errors.New("manifest service did not shut down")
 	}
+	e.sub.Close()
 	e.bus.Close()
 	return nil
+}
+
+// announced returns the version hashes of every manifest the provider announced (event.ManifestReceived, what the
+// cluster service deploys) for deployment dseq so far. A marker event published now and awaited on the same
+// subscription proves that every earlier publication has been seen (the bus delivers in order).
+func (e *gateEnv) announced(dseq uint64) ([]string, error) {
+	e.marks++
+	mark := gateMarker{n: e.marks}
+	if err := e.bus.Publish(mark); err != nil {
+		return nil, err
+	}
+	var out []string
+	deadline := time.After(30 * time.Second)
+	for {
+		select {
+		case ev := <-e.sub.Events():
+			switch x := ev.(type) {
+			case gateMarker:
+				if x.n == mark.n {
+					return out, nil
+				}
+			case event.ManifestReceived:
+				if x.LeaseID.DSeq != dseq || x.Manifest == nil {
+					continue
+				}
+				v, err := version(*x.Manifest)
+				if err != nil {
+					return nil, err
+				}
+				out = append(out, v)
+			}
+		case <-deadline:
+			return nil, errors.New("bus marker never came back")
+		}
+	}
 }
 
 // waitActive returns once the service has created the manager of deployment did, i.e. once its loop has handled
@@ -132,10 +194,14 @@ func (e *gateEnv) lease(did dtypes.DeploymentID, g *dtypes.Group) error {
 	})
 }
 
-// submit runs one scenario: the chain records version `chain` and groups `groups` for a fresh deployment, the
-// provider wins a lease on it, then sees the update events `updates` (versions) in order, then the tenant submits m.
-// Returns the error of Service.Submit (nil = accepted).
-func (e *gateEnv) submit(groups []dtypes.Group, chain []byte, updates [][]byte, m manifest.Manifest) (error, error) {
+// play runs one scenario: the chain records version `chain` and groups `groups` for a fresh deployment, the provider
+// wins a lease on it, then sees the update events `updates` (versions) in order, then the tenant submits the
+// manifests `subs`. With batch=false there is one submission, made after the updates. With batch=true the manager's
+// chain query is held in flight, the submissions are issued one after the other while it is (the manager queues
+// them), then the query is released and the manager validates them together.
+// Returns the reply of every Service.Submit (nil = accepted) and the version hash of every manifest the provider
+// announced on the bus for this deployment.
+func (e *gateEnv) play(groups []dtypes.Group, chain []byte, updates [][]byte, subs []manifest.Manifest, batch bool) ([]error, []string, error) {
 	dseq := e.next
 	e.next += 2
 	did := dtypes.DeploymentID{Owner: e.owner, DSeq: dseq}
@@ -143,12 +209,25 @@ func (e *gateEnv) submit(groups []dtypes.Group, chain []byte, updates [][]byte, 
 		groups[i].GroupID.Owner = e.owner
 		groups[i].GroupID.DSeq = dseq
 	}
+	var h *hold
 	e.q.mu.Lock()
 	e.q.deployments[dseq] = &dtypes.QueryDeploymentResponse{
 		Deployment: dtypes.Deployment{DeploymentID: did, State: dtypes.DeploymentActive, Version: chain},
 		Groups:     groups,
 	}
+	if batch {
+		h = &hold{entered: make(chan struct{}), release: make(chan struct{})}
+		e.q.holds[dseq] = h
+	}
 	e.q.mu.Unlock()
+	released := false
+	release := func() {
+		if h != nil && !released {
+			released = true
+			close(h.release)
+		}
+	}
+	defer release()
 
 	var g *dtypes.Group
 	if len(groups) > 0 {
@@ -157,32 +236,82 @@ func (e *gateEnv) submit(groups []dtypes.Group, chain []byte, updates [][]byte, 
 		g = &dtypes.Group{GroupID: dtypes.GroupID{Owner: e.owner, DSeq: dseq, GSeq: 1}, GroupSpec: dtypes.GroupSpec{Name: "none"}}
 	}
 	if err := e.lease(did, g); err != nil {
-		return nil, err
+		return nil, nil, err
 	}
 	sentinel := dtypes.DeploymentID{Owner: e.owner, DSeq: dseq + 1}
 	if len(updates) > 0 {
 		for _, v := range updates {
 			if err := e.bus.Publish(dtypes.NewEventDeploymentUpdated(did, v)); err != nil {
-				return nil, err
+				return nil, nil, err
 			}
 		}
 		// a lease on a sentinel deployment, published after the updates: once its manager exists the updates
 		// have been handed to the manager of did
 		if err := e.lease(sentinel, g); err != nil {
-			return nil, err
+			return nil, nil, err
 		}
 		if err := e.waitActive(sentinel); err != nil {
-			return nil, err
+			return nil, nil, err
 		}
 	} else if err := e.waitActive(did); err != nil {
-		return nil, err
+		return nil, nil, err
 	}
 
-	ctx, cancel := context.WithTimeout(context.Background(), 20*time.Second)
-	res := e.svc.Submit(ctx, did, m)
-	cancel()
-	if res != nil && (errors.Is(res, context.DeadlineExceeded) || errors.Is(res, pmanifest.ErrNotRunning)) {
-		return nil, fmt.Errorf("submission was not answered: %v", res)
+	replies := make([]error, len(subs))
+	if !batch {
+		for i, m := range subs {
+			ctx, cancel := context.WithTimeout(context.Background(), 20*time.Second)
+			replies[i] = e.svc.Submit(ctx, did, m)
+			cancel()
+		}
+	} else {
+		select {
+		case <-h.entered: // the manager holds the lease and its query is in flight: submissions queue up
+		case <-time.After(20 * time.Second):
+			return nil, nil, errors.New("the manager never queried the chain for the deployment")
+		}
+		done := make(chan int, len(subs))
+		for i := range subs {
+			started := make(chan struct{})
+			go func(i int) {
+				ctx, cancel := context.WithTimeout(context.Background(), 30*time.Second)
+				defer cancel()
+				close(started)
+				replies[i] = e.svc.Submit(ctx, did, subs[i])
+				done <- i
+			}(i)
+			<-started
+			// Submission order: the public API offers no acknowledgement that a submission has reached the manager
+			// (Submit only returns with the verdict), so the order is encouraged, not enforced: a number of
+			// request/response round trips through the same service loop that must pick the submission up. If the
+			// order comes out differently the scenario is merely a different batch; the oracle does not depend on it.
+			for k := 0; k < 40; k++ {
+				runtime.Gosched()
+				ctx, cancel := context.WithTimeout(context.Background(), 10*time.Second)
+				_, err := e.svc.IsActive(ctx, did)
+				cancel()
+				if err != nil {
+					return nil, nil, err
+				}
+			}
+		}
+		release()
+		for range subs {
+			select {
+			case <-done:
+			case <-time.After(40 * time.Second):
+				return nil, nil, errors.New("a batched submission was never answered")
+			}
+		}
+	}
+	for _, res := range replies {
+		if res != nil && (errors.Is(res, context.DeadlineExceeded) || errors.Is(res, pmanifest.ErrNotRunning)) {
+			return nil, nil, fmt.Errorf("submission was not answered: %v", res)
+		}
+	}
+	ann, err := e.announced(dseq)
+	if err != nil {
+		return nil, nil, err
 	}
 	// retire the managers of this scenario (keeps the goroutine count flat)
 	_ = e.bus.Publish(dtypes.NewEventDeploymentClosed(did))
@@ -191,8 +320,9 @@ func (e *gateEnv) submit(groups []dtypes.Group, chain []byte, updates [][]byte, 
 	}
 	e.q.mu.Lock()
 	delete(e.q.deployments, dseq)
+	delete(e.q.holds, dseq)
 	e.q.mu.Unlock()
-	return res, nil
+	return replies, ann, nil
 }
 
 // GateLine is one observation of kind "gate".
@@ -209,7 +339,50 @@ type GateLine struct {
 	Sub      int             `json:"sub"`     // hash id of sdl.ManifestVersion(submitted manifest)
 	SubIsAlt bool            `json:"subalt"`  // the submitted manifest is the altered one (same resources, other image)
 	Accepted bool            `json:"accepted"`
+	// hash ids of the manifests the provider ANNOUNCED on the bus (event.ManifestReceived) for the deployment
+	Announced []int  `json:"announced"`
+	Err       string `json:"err,omitempty"`
+}
+
+// BatchSub is one submission of a batch.
+type BatchSub struct {
+	What     string          `json:"what"` // m | alt | bump
+	M        json.RawMessage `json:"m"`    // its abstract manifest
+	Hid      int             `json:"hid"`  // hash id of sdl.ManifestVersion of the concrete manifest
+	Accepted bool            `json:"accepted"`
 	Err      string          `json:"err,omitempty"`
+}
+
+// BatchLine is one observation of kind "batch": several submissions queued while the manager's chain query was in
+// flight, validated together when it returned; and what the provider announced afterwards.
+type BatchLine struct {
+	Kind      string          `json:"kind"`
+	ID        int             `json:"id"`
+	Scenario  string          `json:"scenario"`
+	Scheme    int             `json:"scheme"`
+	Ballast   bool            `json:"ballast"`
+	D         json.RawMessage `json:"d"`
+	M         json.RawMessage `json:"m"` // the agreed manifest (same as the "m" submission)
+	Chain     int             `json:"chain"`
+	Updates   []int           `json:"updates"`
+	Subs      []BatchSub      `json:"subs"` // in the order they were issued
+	Announced []int           `json:"announced"`
+}
+
+// batches: the chain holds the hash of `chain`; the submissions are issued in this order while the query is held.
+// "alt": other image (wrong hash, same resources); "bump": one more replica in the first service (wrong hash AND
+// wrong resources).
+var batches = []struct {
+	name  string
+	chain string
+	subs  []string
+}{
+	{"batch chain=m: alt,m", "m", []string{"alt", "m"}},
+	{"batch chain=m: m,alt", "m", []string{"m", "alt"}},
+	{"batch chain=m: bump,m", "m", []string{"bump", "m"}},
+	{"batch chain=m: alt,bump,m", "m", []string{"alt", "bump", "m"}},
+	{"batch chain=bump: bump,m", "bump", []string{"bump", "m"}}, // right hash, wrong resources; then the matching manifest with the wrong hash
+	{"batch chain=m: m,m", "m", []string{"m", "m"}},
 }
 
 // scenarios: which version the chain holds, which update events arrive, which manifest is submitted.
@@ -241,22 +414,58 @@ func altManifest(m manifest.Manifest) manifest.Manifest {
 	return m
 }
 
-// RunGate runs every scenario for one pair under one scheme.
-func (e *gateEnv) RunGate(id int, p *Pair, rawD, rawM json.RawMessage, s int, hashes *interner, only int, emit func(GateLine) error) error {
-	for si, sc := range scenarios {
-		if only >= 0 && si != only {
-			continue
+// bumpAbs is the abstract manifest with one more replica in its first service (nil if there is none).
+func bumpAbs(m []Grp) []Grp {
+	for gi := range m {
+		if len(m[gi].Recs) > 0 {
+			out := make([]Grp, len(m))
+			for i := range m {
+				out[i] = Grp{Name: m[i].Name, Recs: append([]Rec{}, m[i].Recs...)}
+			}
+			out[gi].Recs[0].C++
+			return out
 		}
+	}
+	return nil
+}
+
+// RunGate runs every single-submission scenario and every batch scenario for one pair under one scheme.
+func (e *gateEnv) RunGate(id int, p *Pair, rawD, rawM json.RawMessage, s int, hashes *interner,
+	emit func(GateLine) error, emitBatch func(BatchLine) error) error {
+	build := func(what string) (manifest.Manifest, json.RawMessage, error) {
+		switch what {
+		case "alt":
+			a, err := Manifest(p.M, s)
+			return altManifest(a), rawM, err
+		case "bump":
+			b := bumpAbs(p.M)
+			if b == nil {
+				return nil, nil, nil
+			}
+			raw, _ := json.Marshal(b)
+			bm, err := Manifest(b, s)
+			return bm, raw, err
+		}
+		m, err := Manifest(p.M, s)
+		return m, rawM, err
+	}
+	ids := func(vs []string) []int {
+		out := []int{}
+		for _, v := range vs {
+			out = append(out, hashes.id(v))
+		}
+		return out
+	}
+	for _, sc := range scenarios {
 		groups, err := DGroups(p.D, s, e.owner, 0)
 		if err != nil {
 			return err
 		}
-		m, err := Manifest(p.M, s)
+		m, _, err := build("m")
 		if err != nil {
 			return err
 		}
-		alt, _ := Manifest(p.M, s)
-		alt = altManifest(alt)
+		alt, _, _ := build("alt")
 		vm, err := version(m)
 		if err != nil {
 			return err
@@ -281,17 +490,72 @@ func (e *gateEnv) RunGate(id int, p *Pair, rawD, rawM json.RawMessage, s int, ha
 		if sc.sub == "alt" {
 			sub = alt
 		}
-		res, herr := e.submit(groups, []byte(pick(sc.chain)), ups, sub)
+		replies, ann, herr := e.play(groups, []byte(pick(sc.chain)), ups, []manifest.Manifest{sub}, false)
 		if herr != nil {
 			return fmt.Errorf("gate scenario %q of pair %d: %v", sc.name, id, herr)
 		}
+		res := replies[0]
 		l := GateLine{Kind: "gate", ID: id, Scenario: sc.name, Scheme: s, Ballast: Ballast(s), D: rawD, M: rawM,
 			Chain: hashes.id(pick(sc.chain)), Updates: upIDs, Sub: hashes.id(pick(sc.sub)), SubIsAlt: sc.sub == "alt",
-			Accepted: res == nil}
+			Accepted: res == nil, Announced: ids(ann)}
 		if res != nil {
 			l.Err = res.Error()
 		}
 		if err := emit(l); err != nil {
+			return err
+		}
+	}
+	for _, bc := range batches {
+		groups, err := DGroups(p.D, s, e.owner, 0)
+		if err != nil {
+			return err
+		}
+		cm, _, err := build(bc.chain)
+		if err != nil {
+			return err
+		}
+		if cm == nil && bc.chain == "bump" {
+			continue
+		}
+		vc, err := version(cm)
+		if err != nil {
+			return err
+		}
+		var subs []manifest.Manifest
+		var bsubs []BatchSub
+		skip := false
+		for _, w := range bc.subs {
+			sm, raw, err := build(w)
+			if err != nil {
+				return err
+			}
+			if raw == nil { // no service to bump
+				skip = true
+				break
+			}
+			v, err := version(sm)
+			if err != nil {
+				return err
+			}
+			subs = append(subs, sm)
+			bsubs = append(bsubs, BatchSub{What: w, M: raw, Hid: hashes.id(v)})
+		}
+		if skip {
+			continue
+		}
+		replies, ann, herr := e.play(groups, []byte(vc), nil, subs, true)
+		if herr != nil {
+			return fmt.Errorf("%q of pair %d: %v", bc.name, id, herr)
+		}
+		for i, r := range replies {
+			bsubs[i].Accepted = r == nil
+			if r != nil {
+				bsubs[i].Err = r.Error()
+			}
+		}
+		l := BatchLine{Kind: "batch", ID: id, Scenario: bc.name, Scheme: s, Ballast: Ballast(s), D: rawD, M: rawM,
+			Chain: hashes.id(vc), Updates: []int{}, Subs: bsubs, Announced: ids(ann)}
+		if err := emitBatch(l); err != nil {
 			return err
 		}
 	}
